@@ -240,7 +240,7 @@ type pathEnd struct {
 
 func isControlPanic(p any) bool {
 	switch p.(type) {
-	case abortPanic, pathEnd, unsupported, engineFault, *pathEnd:
+	case abortPanic, pathEnd, unsupported, engineFault, *pathEnd, goroutinePanic:
 		return true
 	}
 	if _, ok := p.(runtime.Error); ok {
